@@ -93,6 +93,8 @@ type gcRunner struct {
 	decClosed     map[string]int    // decorator.sub.closed seen (count)
 	rng           *rand.Rand
 	leakWg        sync.WaitGroup
+	gateEvDone    chan struct{} // closed when the call made by the gate event has returned (or the gate was not reached)
+	gateEvOnce    sync.Once
 }
 
 func gcMetaSnapshot(m *message.Message) string {
@@ -148,6 +150,11 @@ func (x *gcRunner) publishCtx(pname, topic string, n int, batch bool, deadCtx bo
 			return
 		}
 		x.emit("pubend", "p", pc, "ok", err == nil)
+		if i == 0 && x.sc.Gate != nil && strings.HasPrefix(x.sc.Gate.ID, "m:") && pname != "g" {
+			// the call that the gate event made (e.g. a Subscribe) has returned before this publisher goes on:
+			// what it publishes next is then certainly owed to that subscription
+			<-waitOr(x.gateEvDone, HangBound)
+		}
 	}
 	if batch && len(batchMsgs) > 0 {
 		// one call with several messages: logged as one abstract publish per message, started together, ended together
@@ -433,7 +440,7 @@ func (x *gcRunner) fire(ev string) {
 }
 
 func gcRun(r *tr.Run, sc gcScenario, rng *rand.Rand) (gateReached bool) {
-	x := &gcRunner{r: r, sc: sc, rng: rng, prefix: fmt.Sprintf("r%d-", r.ID), seen: map[*message.Message]bool{}, orig: map[string]*message.Message{},
+	x := &gcRunner{r: r, sc: sc, rng: rng, gateEvDone: make(chan struct{}), prefix: fmt.Sprintf("r%d-", r.ID), seen: map[*message.Message]bool{}, orig: map[string]*message.Message{},
 		snap: map[string]string{}, recvCnt: map[string]*int32{}, cancels: map[string]context.CancelFunc{}, closeReturned: make(chan struct{}),
 		subOK: map[string]int{}, innerClosed: map[string]bool{}, decClosed: map[string]int{},
 		expMin: map[string]map[string]bool{}, ackedBy: map[string]map[string]bool{}, subTopic: map[string]string{}, subLive: map[string]bool{}, pubTopic: map[string]string{}}
@@ -580,7 +587,11 @@ func (x *gcRunner) body() (gateReached bool) {
 		gateReached = gate.Arrived(300 * time.Millisecond)
 		if gateReached {
 			evDone := make(chan struct{})
-			go func() { defer close(evDone); x.fire(sc.Gate.Event) }()
+			go func() {
+				defer close(evDone)
+				defer x.gateEvOnce.Do(func() { close(x.gateEvDone) })
+				x.fire(sc.Gate.Event)
+			}()
 			select { // the event may legitimately block until the parked goroutine moves on
 			case <-evDone:
 			case <-time.After(15 * time.Millisecond):
@@ -589,6 +600,7 @@ func (x *gcRunner) body() (gateReached bool) {
 			<-waitOr(evDone, HangBound)
 		} else {
 			gate.Release()
+			x.gateEvOnce.Do(func() { close(x.gateEvDone) })
 		}
 	}
 	pubsDone := waitWG(&x.pubsWg)
